@@ -45,10 +45,10 @@ CLAIMS["C09"] = {
 }
 
 CLAIMS["C10"] = {
-    "technique": "static analysis: sibling agreement of list-unlink sites (delta hand-over), dominance and avoid-set reachability in call_out() (dequeue-before-invoke, per-entry setjmp, release on both branches, clock after drain, destructed-target test)",
+    "technique": "static analysis: sibling agreement of list-unlink sites (delta hand-over), dominance and avoid-set reachability in call_out() (dequeue-before-invoke, per-entry setjmp, release on both branches, clock after drain, destructed-target test), data-dependence of the stored revolutions/slot on delay, clock and wheel position",
     "text": "Decides the bookkeeping mechanism of call_out for all paths: every unlink site of the delta-encoded slot lists hands the removed delta to its successor, insertion is symmetric, "
             "the entry leaves the list before its callback can run, each entry has its own recovery point and is released on both setjmp branches, and destructed targets/arguments are filtered. "
-            "The timing arithmetic over event histories (fires exactly once, not early, not late) is not decided.",
+            "The revolutions stored for a new entry depend on delay, current_time and the wheel position call_out_time (a necessary condition while the wheel may lag the clock); the timing arithmetic itself over event histories (fires exactly once, not early, not late) is not decided.",
     "design_ref": "DESIGN.md §5 C10",
 }
 
@@ -62,15 +62,15 @@ CLAIMS["C11"] = {
 }
 
 CLAIMS["C13"] = {
-    "technique": "static analysis: field-cursor bound inference (max over guarded increments and constant stores vs declared array extent), per-iteration longest-path store count in copy_chars vs read-budget divisors, append-destination rule",
+    "technique": "static analysis: field-cursor bound inference (max over guarded increments and constant stores vs declared array extent), per-iteration longest-path store count in copy_chars vs read-budget divisors, append-destination rule, guard provenance of the command-available flag and of any bulk copy that bypasses the telnet state machine",
     "text": "Decides the memory clauses of input framing for every byte stream at once: cursor fields indexing fixed arrays of the connection record cannot exceed the last valid index at any use; "
             "copy_chars' worst-case expansion per input byte (longest acyclic iteration path) is covered by every telnet read budget and the scratch buffers match the text buffer; new input is appended at text_end. "
-            "Independence of delivered lines from packet boundaries and backspace editing are behavioural and not decided; text_end arithmetic is reported as undecided.",
+            "Two structural necessary conditions of split-independence are decided: CMD_IN_BUF is raised only on the result of the shared buffer scan cmd_in_buf(), and input bytes bypass the per-byte state machine only under a test of the complete state word. Independence of delivered lines from packet boundaries in general and backspace editing are behavioural and not decided; text_end arithmetic is reported as undecided.",
     "design_ref": "DESIGN.md §5 C13",
 }
 
 CLAIMS["C14"] = {
-    "technique": "static analysis: slack dataflow (lower bound on free ring slots across the full-buffer tests) at every store into message_buf, structural checks of the modular cursor arithmetic in flush_message, who-may-write, sibling agreement",
+    "technique": "static analysis: interprocedural slack dataflow (lower bound on free ring slots; summaries of room-testing helpers per sign of their result with constant arguments bound, partition on conditional arguments, raw-put helpers charged at their call sites) at every store into message_buf, structural checks of the modular cursor arithmetic in flush_message, who-may-write, sibling agreement",
     "text": "Decides the ring-buffer arithmetic on all paths: each store into the output ring happens at the producer with at least one free slot (including the CR LF pair and the re-test after a flush) and is followed by the modular advance and the length increment; "
             "flush_message sends only the contiguous unsent chunk, advances the consumer modulo the size by the bytes actually sent and lowers the length by the same amount, and consumes nothing when send fails; only the ring API writes the three cursor fields. "
             "In-order exactly-once delivery under arbitrary partial-write patterns is behavioural and not decided.",
@@ -78,17 +78,17 @@ CLAIMS["C14"] = {
 }
 
 CLAIMS["C12"] = {
-    "technique": "static analysis: guard dominance and avoid-set reachability in backend() and get_user_command(), who-may-write/read on the HAS_CMD_TURN bit over all units",
+    "technique": "static analysis: guard dominance and avoid-set reachability in backend() and get_user_command(), who-may-write/read on the HAS_CMD_TURN bit over all units, must-pass-through of the cursor advance between the pick and the return of get_user_command",
     "text": "Decides the turn mechanism structurally: the grant loop covers every slot below max_users and precedes the command loop on every path of a backend iteration; "
             "the turn is consumed and a user selected only under (complete command) and (turn held), a user without a turn keeps command and turn, and no code but the grant loop and get_user_command touches the bit "
-            "(so command() issued from LPC is never limited). Fairness over schedules, per-user ordering and the round-robin cursor arithmetic are not decided.",
+            "(so command() issued from LPC is never limited). The round-robin cursor is advanced inside get_user_command on every path that returns a command, i.e. before the command can leave by longjmp. Fairness over schedules and per-user ordering are not decided.",
     "design_ref": "DESIGN.md §5 C12",
 }
 
 CLAIMS["C17"] = {
-    "technique": "static analysis: must-pass-through (avoid-set reachability on the passing/stale edges of each staleness test, loop-iteration form for includes and inherits) in load_binary; writer/reader agreement on the preamble",
+    "technique": "static analysis: must-pass-through (avoid-set reachability on the passing/stale edges of each staleness test, loop-iteration form for includes and inherits) in load_binary; writer/reader agreement on the preamble; bypass analysis of the include-list registration in add_program_file",
     "text": "Decides the staleness clause for all paths of load_binary: the successful return is reachable only through the passing edge of the source, driver-id, config-id, per-include and per-inherit (source and binary) tests, and no stale edge can reach it; "
-            "check_times reports newer-as-stale; the preamble is written and read in one order; config_id derives from the simul_efun file's mtime only. "
+            "check_times reports newer-as-stale; the preamble is written and read in one order; config_id derives from the simul_efun file's mtime only; every non-top file registered by the lexer reaches the include list the binary is checked against. "
             "That the loaded program equals what the source compiles to (the first sentence of the property) is behavioural and not decided.",
     "design_ref": "DESIGN.md §5 C17",
 }
@@ -110,34 +110,34 @@ CLAIMS["C07"] = {
 }
 
 CLAIMS["C08"] = {
-    "technique": "static analysis: per-opcode region analysis of the interpreter's fetch cases (destructed-object scrub), must-pass-through of every unlink step on all paths of destruct_object, precondition dominance in move_object",
+    "technique": "static analysis: per-opcode region analysis of the interpreter's fetch cases (destructed-object scrub), must-pass-through of every unlink step on all paths of destruct_object, precondition dominance in move_object, link-store-after-hook reachability, publish-before-destructible ordering in load_object/clone_object",
     "text": "Decides the destruction/visibility mechanism on all paths: each interpreter case that copies a stored value to the stack substitutes 0 for destructed objects (other copying cases are enumerated and reviewed); "
             "destruct_object cannot set O_DESTRUCTED without having passed the stack scrub, inventory unlink, name-hash and object-list removal, living-name, sentence, input_to, heart-beat steps and emptied its inventory, and disconnects afterwards; "
-            "move_object relinks only after the containment-cycle walk and the destination-alive test. The forest invariant over operation histories and re-validation after create/init/move hooks are not decided.",
+            "move_object relinks only after the containment-cycle walk and the destination-alive test. no inventory link is written after a re-entrant hook (destruct_object's unlink is the reviewed exception, constrained by the re-read rule); a new object is entered into the name table before anything that can destruct it runs. The forest invariant over operation histories is not decided.",
     "design_ref": "DESIGN.md §5 C08",
 }
 
 CLAIMS["C16"] = {
-    "technique": "static analysis: sink/argument analysis and dominance in save_object (atomic replace protocol), sibling agreement between svalue_save_size and save_svalue (switch case sets, constant and per-iteration store counts vs accounted sizes), store-after-parse ordering in safe_restore_svalue",
+    "technique": "static analysis: sink/argument analysis and dominance in save_object (atomic replace protocol), sibling agreement between svalue_save_size and save_svalue (switch case sets, constant and per-iteration store counts vs accounted sizes), store-after-parse ordering in safe_restore_svalue, dominance of the inherit recursion over every use of num_variables_defined in the variable-layout walkers",
     "text": "Decides the structural clauses: a save can only replace the final file by rename() of a fully written, successfully closed temporary derived from the approved path, and failures remove the temporary; "
             "the size pass and the write pass of the serializer handle the same tags and never write more constant/delimiter bytes than were accounted, and callers allocate exactly that size; "
-            "the no-clear restore stores into the variable only after a successful parse. Round-trip equality of values and robustness of the restore parser on arbitrary text are behavioural and not decided.",
+            "the no-clear restore stores into the variable only after a successful parse; every walker of the variable layout (save, restore, lookup) accounts for a program's inherited subtree before its own variables. Round-trip equality of values and robustness of the restore parser on arbitrary text are behavioural and not decided.",
     "design_ref": "DESIGN.md §5 C16",
 }
 
 CLAIMS["C19"] = {
-    "technique": "static analysis: lockset dataflow (must-hold) over the message queue, thread-root closures from the call graph with shared-variable atomicity check, who-may-write on the eventfd counter",
+    "technique": "static analysis: lockset dataflow (must-hold) over the message queue, thread-root closures from the call graph with shared-variable atomicity check, who-may-write on the eventfd counter, cross-thread write sites relative to thread creation",
     "text": "Decides race-freedom structurally where it can: every access to a mutable field or slot of the message queue is under the queue mutex on every path, no path returns with it held, the blocking writer releases it around its wait; "
             "variables written in a thread root's closure (timer thread, worker thread) and read by the backend must be atomic or locked (three are not: recorded findings); an eventfd counter may only be written with the constant 1 "
-            "(the completion post encodes key/data in it: recorded finding). Exactly-once delivery under interleavings, FIFO order and termination of stop are schedule-dependent and not decided.",
+            "(the completion post encodes key/data in it: recorded finding); a variable a thread root writes is stored by other threads only before pthread_create (one site is not: recorded finding). Exactly-once delivery under interleavings, FIFO order and termination of stop are schedule-dependent and not decided.",
     "design_ref": "DESIGN.md §5 C19",
 }
 
 CLAIMS["C06"] = {
-    "technique": "static analysis: ownership table over struct layouts with must-pass-through of each owning field's release in its deallocator (bypass only via the field's NULL test), classification of every pointer field of owner records, guardedness of every increment of a sub-32-bit reference counter",
+    "technique": "static analysis: ownership table over struct layouts with must-pass-through of each owning field's release in its deallocator (bypass only via the field's NULL test), classification of every pointer field of owner records, guardedness of every increment of a sub-32-bit reference counter, avoid-set reachability for partial-release call sites (setjmp recovery edges replaced by their raising origins)",
     "text": "Decides two structural necessary conditions of exact counting: every release function (sentence, pending call, function pointer, object, connection, array/class/mapping/object variables) releases each owning field on every path before giving the container up, and every pointer field of those records is classified owning/not-owning; "
             "every increment of a 16-bit reference counter is enumerated - strings saturate, eight counters do not (recorded findings keyed by declaration, so a new narrow counter or a de-saturated one is reported). "
-            "That counts return to their previous values after arbitrary evaluation sequences is behavioural and not decided.",
+            "The partial release free_called_call() (which keeps the argument array) is reached only after the array was handed over or found absent, on normal and recovery paths. That counts return to their previous values after arbitrary evaluation sequences is behavioural and not decided.",
     "design_ref": "DESIGN.md §5 C06",
 }
 
@@ -150,10 +150,10 @@ CLAIMS["C02"] = {
 }
 
 CLAIMS["C01"] = {
-    "technique": "static analysis: clang's type-resolved format checker with injected format attributes over all units plus a literal-provenance rule, output-bound computation for every formatted write into a fixed char array, must-pass CHECK_TYPES analysis of the efun dispatch cases, stack-space check dominance for every value-stack push, saturating-length flow rule, LPC-integer index taint with range guards, stale-pointer typestate for mapping internals held across LPC callbacks",
+    "technique": "static analysis: clang's type-resolved format checker with injected format attributes over all units plus a literal-provenance rule, output-bound computation for every formatted write into a fixed char array, must-pass CHECK_TYPES analysis of the efun dispatch cases, stack-space check dominance for every value-stack push, saturating-length flow rule, LPC-integer index taint with range guards, stale-pointer typestate for mapping internals held across LPC callbacks, tag-domain abstract interpretation of every efun against the dispatcher's guarantees (argument slot tracking through sp arithmetic, per argument count)",
     "text": "Decides structural necessary conditions of memory safety for all programs at once, per site: ~900 reporter calls have literal or provably driver-literal formats with well-formed conversions; every sprintf/strcpy into a fixed buffer has a computed bound (LPC-controlled numbers at full range) or is reported undecided; "
             "each F_EFUNn dispatch is behind one CHECK_TYPES per fixed argument; every sp increment is behind a space check or a pop (73 unguarded push sites are recorded findings, so a new one is reported); MSTR_SIZE never reaches a copy/allocation length without its USHRT_MAX fallback; "
-            "subscripts and copy lengths derived from LPC integers are dominated by lower and upper bounds paired with the indexed container. mapping node/table pointers that stay live across an LPC callback belong to a mapping the callback cannot reach (private copy or proven single reference). Use-after-free in general, efun-internal pointer arithmetic, pc staying inside the bytecode and optional-argument tag tests (C01-e) are not decided.",
+            "subscripts and copy lengths derived from LPC integers are dominated by lower and upper bounds paired with the indexed container. mapping node/table pointers that stay live across an LPC callback belong to a mapping the callback cannot reach (private copy or proven single reference). Use-after-free in general, efun-internal pointer arithmetic, pc staying inside the bytecode are not decided. Every read of a pointer union member of an efun argument (213 efuns, per admissible argument count) happens under a tag set - from the dispatcher or from the efun's own tests - for which that member is a pointer (three efuns that used unchecked arguments as pointers were found, replayed and fixed); reads through slots the interpreter cannot resolve are counted, not claimed.",
     "design_ref": "DESIGN.md §5 C01",
 }
 
